@@ -90,7 +90,17 @@ class Gen:
                 if js:
                     return [f"activate f{r.choice(js)}"]
             if k == "start_action":
+                if r.random() < 0.3:
+                    self.nref += 1
+                    arefs = getattr(self, "arefs", None)
+                    if arefs is not None:
+                        arefs.append(f"$a{self.nref}")
+                        return [f"start {self.action()} as $a{self.nref}"]
                 return [f"start {self.action()}"]
+            if k == "stop_action_ref":
+                arefs = getattr(self, "arefs", None)
+                if arefs:
+                    return [f"send {r.choice(arefs)}.Stop()"]
             if k == "await_action":
                 return [f"await {self.action()}"]
             if k == "group_flow":
@@ -143,6 +153,7 @@ class Gen:
     def flow_body(self, i, n, activatable, immediate):
         r = self.rng
         refs = []
+        self.arefs = []
         lines = []
         if i in immediate:
             for _ in range(r.choice([1, 2])):
@@ -188,13 +199,14 @@ class Gen:
         return h
 
 
-FLOW_KINDS = (["match"] * 5 + ["start_flow"] * 3 + ["await_flow"] * 3 + ["activate"] * 2 + ["start_action"] * 4
+FLOW_KINDS = (["match"] * 5 + ["start_flow"] * 3 + ["await_flow"] * 3 + ["activate"] * 3 + ["start_action"] * 4
               + ["await_action"] * 4 + ["group_flow"] * 2 + ["group_action"] * 2 + ["when"] * 4 + ["stop_ref"] * 1
-              + ["stop_id"] * 1 + ["abort"] * 1 + ["deactivate"] * 1)
+              + ["stop_id"] * 2 + ["abort"] * 1 + ["deactivate"] * 2 + ["stop_action_ref"] * 1)
 MAIN_KINDS = (["match"] * 3 + ["start_flow"] * 5 + ["activate"] * 4 + ["start_action"] * 2 + ["group_flow"] * 2
-              + ["when"] * 2 + ["stop_ref"] * 2 + ["stop_id"] * 1 + ["deactivate"] * 1 + ["await_flow"] * 1)
+              + ["when"] * 2 + ["stop_ref"] * 2 + ["stop_id"] * 2 + ["deactivate"] * 2 + ["await_flow"] * 1
+              + ["stop_action_ref"] * 1)
 BODY_KINDS = (["match"] * 4 + ["start_flow"] * 2 + ["await_flow"] * 1 + ["start_action"] * 3 + ["await_action"] * 2
-              + ["abort"] * 1 + ["stop_ref"] * 1)
+              + ["abort"] * 1 + ["stop_ref"] * 1 + ["stop_action_ref"] * 1)
 
 
 # hand-written shapes that the random grammar reaches rarely (shared actions, scopes, activation)
@@ -250,7 +262,8 @@ class Recorder:
         self.sm = sm
         self.fl = fl
         self.depth = 0
-        self.cur = None       # record being filled (outermost call)
+        self.open = []        # records being filled (innermost last)
+        self.explicit_stops = set()  # Stop events sent by a `send $action.Stop()` statement
         self.stack = []       # uids of the flows whose _abort_flow/_finish_flow is executing
         self.cases = []
         self.released = set() # (flow uid, action uid) released by an EndScope   (oracle ledger)
@@ -270,22 +283,25 @@ class Recorder:
         return {"flows": flows, "acts": acts}
 
     def begin(self, state, op):
+        """Every real call is recorded (nested calls too): a stack of open records."""
         self.depth += 1
-        if self.depth == 1:
-            self.cur = {"op": op, "pre": self.snap(state), "emit": []}
-            return True
-        return False
+        rec = {"op": op, "pre": self.snap(state), "emit": [], "depth": self.depth}
+        self.open.append(rec)
+        return rec
 
-    def end(self, state, outer, exc=None):
+    def end(self, state, rec, exc=None):
         self.depth -= 1
-        if outer:
-            rec = self.cur
-            self.cur = None
-            if exc is not None:
-                rec["exc"] = type(exc).__name__
-            else:
-                rec["post"] = self.snap(state)
-            self.cases.append(rec)
+        top = self.open.pop()
+        assert top is rec
+        if exc is not None:
+            rec["exc"] = type(exc).__name__
+        else:
+            rec["post"] = self.snap(state)
+        self.cases.append(rec)
+
+    def emit(self, item):
+        for rec in self.open:
+            rec["emit"].append(item)
 
     # ---- installation
     def install(self):
@@ -297,16 +313,16 @@ class Recorder:
 
         def mk(orig, opname):
             def wrapper(state, flow_state, matching_scores, deactivate_flow=False):
-                outer = rec.begin(state, [opname, flow_state.uid, bool(deactivate_flow)])
+                r0 = rec.begin(state, [opname, flow_state.uid, bool(deactivate_flow)])
                 rec.stack.append(flow_state.uid)
                 try:
                     r = orig(state, flow_state, matching_scores, deactivate_flow)
                 except BaseException as e:
                     rec.stack.pop()
-                    rec.end(state, outer, e)
+                    rec.end(state, r0, e)
                     raise
                 rec.stack.pop()
-                rec.end(state, outer)
+                rec.end(state, r0)
                 return r
             return wrapper
 
@@ -318,44 +334,51 @@ class Recorder:
         sm._finish_flow = mk(orig_finish, "finish")
 
         def push(state, event):
-            if rec.cur is not None:
+            if rec.open:
                 if event.name == "FlowFailed":
-                    rec.cur["emit"].append(["failed", event.arguments.get("source_flow_instance_uid")])
+                    rec.emit(["failed", event.arguments.get("source_flow_instance_uid")])
                 elif event.name == "FlowFinished":
-                    rec.cur["emit"].append(["finished", event.arguments.get("source_flow_instance_uid")])
+                    rec.emit(["finished", event.arguments.get("source_flow_instance_uid")])
                 else:
-                    rec.cur["emit"].append(["other", "push:" + event.name])
+                    rec.emit(["other", "push:" + event.name])
             if rec.guard_pending is not None and event.name == "FlowStarted":
                 rec.guard_pending["pushed"] = True
             return orig_push(state, event)
 
         def pushl(state, event):
-            if rec.cur is not None:
+            if rec.open:
                 if event.name == "StartFlow" and rec.stack:
                     a = event.arguments.get("activated")
-                    rec.cur["emit"].append(["restart", rec.stack[-1], event.arguments.get("source_flow_instance_uid"),
-                                            int(a) if isinstance(a, (int, bool)) else -999])
+                    rec.emit(["restart", rec.stack[-1], event.arguments.get("source_flow_instance_uid"),
+                              int(a) if isinstance(a, (int, bool)) else -999])
                 else:
-                    rec.cur["emit"].append(["other", "pushleft:" + event.name])
+                    rec.emit(["other", "pushleft:" + event.name])
             return orig_pushl(state, event)
 
         def umim(state, event):
-            if rec.cur is not None:
-                if isinstance(event, rec.fl.ActionEvent) and event.name.startswith("Stop") and event.action_uid:
-                    rec.cur["emit"].append(["stop", event.action_uid])
+            is_stop = isinstance(event, rec.fl.ActionEvent) and event.name.startswith("Stop") and event.action_uid
+            if rec.open:
+                if is_stop:
+                    rec.emit(["stop", event.action_uid])
                 else:
-                    rec.cur["emit"].append(["other", "umim:" + event.name])
+                    rec.emit(["other", "umim:" + event.name])
+            elif is_stop:
+                rec.explicit_stops.add(event.action_uid)
             return orig_umim(state, event)
 
         def upd(state, event):
             uid = getattr(event, "action_uid", None)
-            outer = rec.begin(state, ["event", _kind_of(event.name), uid if uid is not None else "<none>"])
+            # inside a lifetime operation the Stop status update is part of that operation
+            inside = bool(rec.open)
+            r0 = None if inside else rec.begin(state, ["event", _kind_of(event.name), uid if uid is not None else "<none>"])
             try:
                 r = orig_upd(state, event)
             except BaseException as e:
-                rec.end(state, outer, e)
+                if r0 is not None:
+                    rec.end(state, r0, e)
                 raise
-            rec.end(state, outer)
+            if r0 is not None:
+                rec.end(state, r0)
             return r
 
         sm._push_internal_event = push
@@ -533,6 +556,8 @@ class Oracle:
                     if (uid, a) not in self.rec.released:
                         owners.setdefault(a, []).append(uid)
         for a, e in stopped_now:
+            if a in self.rec.explicit_stops:
+                continue          # requested by a `send $action.Stop()` statement of a running flow
             if owners.get(a):
                 V.append(("stop-while-shared-with-running-flow", step,
                           f"{e.get('type')} for action {a} although running flow(s) {[fs[u].flow_id for u in owners[a]]} still use it", e))
@@ -585,7 +610,8 @@ def run_one(sm, fl, U, src, history, policy):
     sm.random.choice = choice
     rec = RECORDER
     rec.cases, rec.guards, rec.released = [], [], set()
-    rec.depth, rec.cur, rec.stack, rec.guard_pending = 0, None, [], None
+    rec.depth, rec.open, rec.stack, rec.guard_pending = 0, [], [], None
+    rec.explicit_stops = set()
     rec._es_open = False
     res = {"cases": [], "guards": [], "viol": [], "steps": 0, "error": None, "stats": {}}
     try:
@@ -865,7 +891,7 @@ def run(tier, seed, replay=None):
     if not okm:
         out.add_broken("coq:theories/V2/LifeRun.v", logm)
 
-    nprog = 300 if tier == "quick" else 2500
+    nprog = 500 if tier == "quick" else 4000
     maxlen = 6 if tier == "quick" else 10
     jobs = []
     corpus_dir = os.path.join(C.VERIF, "corpus", PID)
@@ -991,7 +1017,7 @@ def run(tier, seed, replay=None):
     out.coverage.update({
         "evaluations": len(terms) + len(gterms),
         "distinct_nontrivial": n_nontrivial,
-        "rule": "a case = one real outermost call of _abort_flow/_finish_flow/EndScope/_update_action_status_by_event with its abstract pre/post snapshot; distinct by hash of the renamed Coq term; non-trivial = at least two instances/actions changed, or a Stop / restart emitted, or an exception",
+        "rule": "a case = one real call (nested calls included) of _abort_flow/_finish_flow/EndScope/_update_action_status_by_event with its abstract pre/post snapshot; distinct by hash of the renamed Coq term; non-trivial = at least two instances/actions changed, or a Stop / restart emitted, or an exception",
         "samples": [{"op": c["op"], "emit": c.get("emit"), "exc": c.get("exc"), "n_instances": len(c["pre"]["flows"]), "n_actions": len(c["pre"]["acts"])} for c, _ in kept[:5]],
         "input_distribution": {"programs_run": stats["programs"], "generated": nprog, "seeds": len(SEEDS) * 2 if not replay else 0, "corpus_cases": corpus_n,
                                "run_to_completion_steps": stats["steps"], "recorded_calls": n_cases, "op_mix": opmix,
@@ -1007,7 +1033,7 @@ def run(tier, seed, replay=None):
     out.assumptions += [
         "the model covers the lifetime layer only (statuses, parent/child lists, action_uids, scopes, activated, new_instance_started, action status/flow_scope_count, emitted Stop/FlowFailed/FlowFinished/restart events); heads, matcher index, contexts and arguments are not modelled",
         "the theorems assume the children relation is well-founded and active actions have flow_scope_count >= 1; both are checked on every recorded real pre-state",
-        "flows with meta tags (_log_action_or_intents) and explicit `send $action.Stop()` are outside the generated grammar",
+        "flows with meta tags (_log_action_or_intents) are outside the generated grammar; an explicit `send $action.Stop()` is generated and counts as the action's one Stop",
         "programs whose run_to_completion does not return (DESIGN F4) are skipped under a timeout / step budget and counted",
         "random.choice is patched (first / last / seeded); uuids are renamed by first occurrence",
     ]
